@@ -292,16 +292,26 @@ def bindir():
 def build_vh(tags=("verif",), cgo=True, name=None, pkg="./cmd/vh", race=False):
     """(Re)build the harness binary against /repo's current tree. go's build cache makes this
     cheap when nothing changed; a change anywhere under /repo is picked up."""
-    key = (tuple(tags), cgo, pkg, race)
+    key = (tuple(tags), cgo, pkg, race, REPO)
     if key in _BIN_CACHE:
         return _BIN_CACHE[key]
-    if not os.path.exists(os.path.join(HARNESS, "go.sum")) or \
-            os.path.getmtime(os.path.join(REPO, "go.sum")) > os.path.getmtime(os.path.join(HARNESS, "go.sum")):
-        shutil.copy(os.path.join(REPO, "go.sum"), os.path.join(HARNESS, "go.sum"))
     if name is None:
         name = "vh-" + hashlib.sha1(repr(key).encode()).hexdigest()[:8]
     out = os.path.join(bindir(), name)
     cmd = ["go", "build", "-o", out]
+    if REPO != "/repo":
+        # checks can be pointed at a scratch worktree (VERIF_REPO) without touching /repo or harness/go.mod
+        alt = os.path.join(bindir(), name + ".mod")
+        with open(os.path.join(HARNESS, "go.mod")) as fh:
+            mod = fh.read().replace("=> /repo/plugins/contrib", "=> %s/plugins/contrib" % REPO).replace("=> /repo\n", "=> %s\n" % REPO)
+        with open(alt, "w") as fh:
+            fh.write(mod)
+        shutil.copy(os.path.join(REPO, "go.sum"), alt[:-4] + ".sum")
+        cmd += ["-modfile", alt]
+    else:
+        gs = os.path.join(HARNESS, "go.sum")
+        if not os.path.exists(gs) or open(gs).read() != open(os.path.join(REPO, "go.sum")).read():
+            shutil.copy(os.path.join(REPO, "go.sum"), gs)
     if tags:
         cmd += ["-tags", ",".join(tags)]
     if race:
